@@ -212,7 +212,9 @@ Section Routing.
     | 3 => match s with [] => vt src_var_v | _ => vt s end
     | 4 => svar_go [vt s] s [] 0
     | 5 => vt (src_var_open ++ s ++ [ch_rbrace])
-    | _ => pre_stream ++ vt s
+    | 6 => pre_stream ++ vt s
+    | 7 | 8 => vt s                 (* the string reached through a pointer-to-value *)
+    | _ => raw_text s               (* 9: {raw:} through a pointer *)
     end.
 
   (* the specification oracle per kind, applied to the implementation's output *)
@@ -224,7 +226,9 @@ Section Routing.
       | 3 => match s with [] => c03_oracle src_var_v out | _ => c03_oracle s out end
       | 4 => safeb 0 out
       | 5 => c03_oracle (src_var_open ++ s ++ [ch_rbrace]) out
-      | _ => list_eqb (firstn 3 out) pre_stream && c03_oracle s (skipn 3 out)
+      | 6 => list_eqb (firstn 3 out) pre_stream && c03_oracle s (skipn 3 out)
+      | 7 | 8 => c03_oracle s out
+      | _ => list_eqb out s
       end
     else
       match kind with
